@@ -547,6 +547,31 @@ def judge(pid, seed, tier):
                 again = np.asarray(fn(y32, z), dtype=float)
                 if not np.array_equal(again, got):
                     add(nm, dict(y=y0.tolist(), z=z0.tolist()), [got.tolist(), again.tolist()], "a second call with the same arrays gives the same values")
+    # ---- float32 observations / predictions with a threshold eta (Python float AND numpy float64) within float32 rounding of
+    # a data value: the same real numbers as float64 arrays must give the same scores; the score is >= 0 (C15)
+    if pid == "C15":
+        for f in ("mean", "quantile", "median", "expectile"):
+            for lvl in (0.2, 0.5, 0.8):
+                for eta0 in (0.1, 0.7, 2.3):
+                    for eta in (eta0, np.float64(eta0), np.float32(eta0)):
+                        for dy in (-1, 0, 1):
+                            for zv in (eta0 - 0.05, eta0, eta0 + 0.1):
+                                e32 = np.float32(eta0)
+                                yv = e32 if dy == 0 else np.nextafter(e32, np.float32(100.0 * dy))
+                                y = np.array([yv, np.float32(1.5)], dtype=np.float32)
+                                z = np.array([np.float32(zv), yv], dtype=np.float32)
+                                tried += 1
+                                try:
+                                    got = np.asarray(ElementaryScore(eta, f, lvl).score_per_obs(y, z), dtype=float)
+                                    exact = np.asarray(ElementaryScore(float(eta), f, lvl).score_per_obs(y.astype(np.float64), z.astype(np.float64)), dtype=float)
+                                except Exception as ex:  # noqa: BLE001
+                                    add(f"ElementaryScore[{f}]", dict(eta=repr(eta), level=lvl, y_float32=[float(v) for v in y], z_float32=[float(v) for v in z]),
+                                        type(ex).__name__, "float32 input is scored")
+                                    continue
+                                if (got < -1e-6).any() or not np.allclose(got, exact, rtol=1e-5, atol=1e-6):
+                                    add(f"ElementaryScore[{f}]", dict(eta=repr(eta), level=lvl, y_float32=[float(v) for v in y], z_float32=[float(v) for v in z]),
+                                        [got.tolist(), exact.tolist()],
+                                        "float32 arrays give the elementary scores (>= 0) of the same real numbers, also for eta within float32 rounding of an observation")
     return dict(failures=fails, tried=tried)
 
 
